@@ -52,6 +52,8 @@ def run(ctx, rep):
     rep.rule("R02.3", "local-attribute closure: slots and own methods of BaseNetref are in LOCAL_ATTRS; class_factory skips exactly those")
     rep.rule("R02.4", "generated methods send CALLATTR with their own name and both operand kinds; method discovery covers metaclass and MRO")
     rep.rule("R02.5", "the StopIteration fast path is paired (= R09.7)")
+    rep.rule("R02.12", "a result comes back as what it is: values by exact type, everything else (subclasses included) as a reference to "
+                       "the target-side object (= R03.1, R03.2)")
     rep.rule("R02.11", "access hooks are the target type's, called with the target: a catch-all __getattr__ of the target is never mistaken for a hook (= R06.4)")
     rep.rule("R02.6", "buffered iteration yields every fetched element in order and stops only on an empty chunk")
     rep.rule("R02.8", "generated proxy classes are reused only for the exact class they were generated for (cache keyed by the "
@@ -200,6 +202,16 @@ def run(ctx, rep):
            "all %d machinery names present" % len(needed) if not lost else
            "LOCAL_ATTRS lost %s: the proxy now forwards its own machinery attribute(s) to the peer" % lost,
            bn.module.relpath, kind="table")
+    # the converse: a name resolved locally must have a local answer - an implementation on BaseNetref, a slot, or one of the
+    # reviewed object-machinery names (confirmed by reading netref.py: __doc__/__module__/__metaclass__/__methods__/__new__/
+    # __reduce__/__dict__/__weakref__/__class__ describe the proxy object itself; the DELETED names must not exist at all)
+    REVIEWED_LOCAL = {"__class__", "__doc__", "__module__", "__metaclass__", "__methods__", "__new__", "__reduce__", "__dict__",
+                      "__weakref__", "__slots__", "__cmp__", "__getattr__"} | set(DELETED)
+    extra_local = sorted(set(LOCAL) - set(bn.methods) - set(slots) - REVIEWED_LOCAL)
+    rep.ob("R02.3", "every LOCAL_ATTRS name has a local answer (BaseNetref method, slot, or reviewed object machinery)", not extra_local,
+           "%d names" % len(LOCAL) if not extra_local else
+           "LOCAL_ATTRS contains %s, which BaseNetref does not implement: the operation is answered by object's default on the "
+           "proxy instead of reaching the target" % extra_local, bn.module.relpath, kind="table")
     # class_factory: model evaluation (class resolution through the module table, forwarders for exactly the non-local names)
     from .. import miniinterp as MIc
     fcf = ctx.func(NETREF + ".class_factory")
@@ -222,7 +234,8 @@ def run(ctx, rep):
              "_make_method": lambda n_, d_: ("forwarder", n_, d_), "BaseNetref": BASE,
              "type": lambda n_, b_, ns_: ("class", n_, tuple(b_), dict(ns_))}
     methods_in = [("go", "doc-go"), ("__len__", "doc-len"), ("__class__", "x"), ("__del__", "y"), ("____conn__", "z"),
-                  ("__getattribute__", "w"), ("fetch", None)]
+                  ("__getattribute__", "w"), ("fetch", None), ("__format__", "f"), ("__sizeof__", "s"), ("__iter__", "i"),
+                  ("__call__", "c"), ("__getstate__", "g")]
     want_fwd = {n_: ("forwarder", n_, d_) for n_, d_ in methods_in if n_ not in LOCAL}
     bad_cf = []
     try:
@@ -544,3 +557,4 @@ def run(ctx, rep):
 
     K.share(ctx, rep, "c06", lambda o: o.rule == "R06.3", "R02.9", floor=1)
     K.share(ctx, rep, "c06", lambda o: o.rule == "R06.4", "R02.11", floor=1)
+    K.share(ctx, rep, "c03", lambda o: o.rule in ("R03.1", "R03.2"), "R02.12", floor=4)
